@@ -24,7 +24,7 @@ func init() {
 			"races on engine state (not caller data) belong to C02 and are ignored here",
 			"user callbacks are not involved; only built-in filters/functions",
 		},
-		quick: 40000, thorough: 400000, minQuick: 9000, minThorough: 150000,
+		quick: 40000, thorough: 520000, minQuick: 9000, minThorough: 150000,
 	}})
 }
 
